@@ -677,7 +677,9 @@ Lemma tuple_case_sound f2 en ix l ts T :
 Proof.
   intros IH He G Hl Fl H. destruct ix; try discriminate. simpl in *.
   destruct (0 <=? z)%Z; try discriminate.
-  destruct (nth_error ts (Z.to_nat z)) as [t|] eqn:E; try discriminate.
+  assert (HL : List.length l = List.length ts) by (clear - Hl; induction Hl; simpl; congruence).
+  assert (Hz : zidx l z = zidx ts z) by (unfold zidx; rewrite HL; reflexivity). rewrite Hz.
+  destruct (nth_error ts (zidx ts z)) as [t|] eqn:E; try discriminate.
   inversion H; subst t.
   destruct (Forall2_nth _ _ _ _ _ Hl E) as [el [Hn Hel]]. rewrite Hn.
   apply elem_typed_value; auto.
